@@ -2,6 +2,6 @@ SPECIFICATION Spec
 CONSTANTS
   Transfers = {1, 2, 3}
   Deviation = FALSE
-  LateBegin = FALSE
+  LateBegin = TRUE
 INVARIANTS OwnVerdict NoGoroutineBlocked C03_NoBeginAfterReset C08_NoBeginAfterLogout
 PROPERTIES WaitEnds
